@@ -33,8 +33,9 @@ LEVEL_TEXT = ("Lean theorems over definitions regenerated from term.py by symbol
               "bundle with the stated side conditions); gen_eq_spec: for every valid term and every extended argument the "
               "function the driver runs returns Spec.muX = closed form / documented limits at +-inf / NaN exactly at NaN "
               "(nan_shapes, nan_iff; Constant ignores x: gen_constant); range 0 <= mu <= height for every class (range, "
-              "range_generic, range_at_inf); explicit values at every breakpoint (at_*); monotone_* for the six monotonic "
-              "classes in both directions and isMonotonic_table; laws of the interpolation model of Discrete. Correspondence: "
+              "range_generic, range_at_inf); explicit values at every breakpoint (at_*); limits: the values at +-inf are "
+              "the Filter.Tendsto limits of the closed forms; monotone / monotone_generic for the six monotonic classes in both "
+              "directions and isMonotonic_table; laws of the interpolation model of Discrete. Correspondence: "
               "implementation vs regenerated model at exact rationals at the hot spots (parameters, float neighbours, "
               "decimal pools) plus an independent Python oracle of the documented formulas.")
 LEVEL_NOTE = ("Trusted: Lean kernel, standard axioms, Mathlib (Real.exp/sqrt/cos/rpow), the tracer (validated by running the "
